@@ -104,7 +104,7 @@ Proof. trace. Qed.
 
 (** the behaviour of /repo dc32f83: every earlier defect repaired, the four below still there *)
 Definition before_c08b : behaviour :=
-  mkBeh true true true true true true true true true true true true true true true true false false false false.
+  mkBeh true true true true true true true true true true true true true true true true false false false false false.
 (** setData(value) / appendData with elements that cannot be converted into the array's type resize the array first *)
 Example refuted_setdata_type : leaves_trace before_c08b (OSetDataT 1 DString [5%Z]).
 Proof. trace. Qed.
@@ -116,9 +116,13 @@ Proof. trace. Qed.
 Example refuted_array_rank33 : leaves_trace before_c08b (OCreate (Some 0) KArray "a2" "t" (XArray DDouble (repeat 1%Z 33))).
 Proof. trace. Qed.
 
+(** the template createDataArray(name, type, data, data_type) creates the array, then fails to write data it cannot convert *)
+Example refuted_create_typed : leaves_trace before_c08b (OCreate (Some 0) KArray "a2" "t" (XArrayT DDouble 3%Z DString)).
+Proof. trace. Qed.
+
 (** the three property defects that are already repaired in /repo, shown on the model of the old code *)
 Definition old_props : behaviour :=
-  mkBeh true true true true true true true false false false true true true true true true true true true true.
+  mkBeh true true true true true true true false false false true true true true true true true true true true true.
 Example refuted_values : leaves_trace old_props (OSetValues 9 [DInt64; DInt64; DString]).
 Proof. trace. Qed.
 Example refuted_prop_values : leaves_trace old_props (OCreate (Some 8) KProperty "q" "" (XPropV [DInt64; DString])).
